@@ -4,35 +4,6 @@ From Coq Require Import Reals Lra Psatz List.
 From CB Require Import Base.Vec3 Model.C08_Arcs Proofs.C08_Theta Proofs.C08_Chord.
 Open Scope R_scope.
 
-(** ** acos through atan: the form evaluated by the correspondence check *)
-Lemma acos_atan_eq x : -1 < x < 1 -> acos x = acos_atan x.
-Proof.
-  intros [H1 H2]. unfold acos, acos_atan.
-  destruct (Rle_dec x (-1)); [lra|]. destruct (Rle_dec 1 x); [lra|]. unfold Rsqr. reflexivity.
-Qed.
-
-Lemma x_range_of_sq x : 0 < 1 - x * x -> -1 < x < 1.
-Proof. intros H. split; nra. Qed.
-
-(** the two branch expressions of the correspondence are the model *)
-Lemma a3_len_flip_eq ps pb pe :
-  a3_flipq ps pb pe < 0 -> 0 < 1 - a3_x ps pb pe * a3_x ps pb pe ->
-  arc_length_3point ps pb pe = a3_len_flip ps pb pe.
-Proof.
-  intros Hq Hx. unfold arc_length_3point, a3_len_flip, a3_len_flip_at, a3_radius. fold (a3_x ps pb pe).
-  destruct (Rlt_dec (a3_flipq ps pb pe) 0); [|lra].
-  rewrite (acos_atan_eq _ (x_range_of_sq _ Hx)). reflexivity.
-Qed.
-
-Lemma a3_len_noflip_eq ps pb pe :
-  0 <= a3_flipq ps pb pe -> 0 < 1 - a3_x ps pb pe * a3_x ps pb pe ->
-  arc_length_3point ps pb pe = a3_len_noflip ps pb pe.
-Proof.
-  intros Hq Hx. unfold arc_length_3point, a3_len_noflip, a3_len_noflip_at, a3_radius. fold (a3_x ps pb pe).
-  destruct (Rlt_dec (a3_flipq ps pb pe) 0); [lra|].
-  rewrite (acos_atan_eq _ (x_range_of_sq _ Hx)). reflexivity.
-Qed.
-
 (** ** the centre is the circumcentre (pure algebra, any non-collinear triple) *)
 Lemma a3_denom_lagrange ps pb pe :
   a3_denom ps pb pe = norm2 (cross (vsub pb ps) (vsub pe ps)).
